@@ -318,6 +318,9 @@ def run_impl(module, func, items, hashseed='0', nproc=None, timeout_item=120, ex
     results = [None] * len(items)
     shards = [list(range(i, len(items), nproc)) for i in range(nproc)]
     env = impl_env(hashseed)
+    # per-item wall-clock guard inside the worker (an item that spins is reported as {'exc': 'ItemGuardTimeout'}
+    # and the worker is restarted, instead of stalling its whole shard)
+    env['VERIF_ITEM_GUARD'] = str(timeout_item)
     if extra_env:
         env.update(extra_env)
 
@@ -416,7 +419,8 @@ class Run:
             if path in seen:
                 continue
             seen.add(path)
-            print(f'VIOLATION property={self.prop} replay={path}{suffix}')
+            if len(seen) <= 8:      # the first few replays are enough; the count is in the evidence file
+                print(f'VIOLATION property={self.prop} replay={path}{suffix}')
         sys.stdout.flush()
         return 1 if self.violations else 0
 
